@@ -672,6 +672,8 @@ def pfe_sign_rule(F, R):
     ctx_ = B_.ctx(m.up_vg)
     base_ = Hyps(B_.pre + B_.houdini(), ctx_)
     if fed is not None:
+        from .e_range import pfe_sign_normal
+        fed = pfe_sign_normal(fed)
         V = None
         for x in subterms(fed):
             if x[0] == 'child':
